@@ -673,7 +673,11 @@ func (s *muxerStream) rotateParts(
 		s.server.registerPath(
 			part.path,
 			func(w http.ResponseWriter, _ *http.Request) {
+				// the storage of a part is touched when its segment
+				// allocates the next part and when it is finalized.
+				s.mutex.Lock()
 				r, err := part.reader()
+				s.mutex.Unlock()
 				if err != nil {
 					w.WriteHeader(http.StatusInternalServerError)
 					return
